@@ -26,6 +26,8 @@ def runs(tier):
     out.append(dict(name='flags', constants=dict(base, MaxD=3, RanksS={2}, Scenarios={'single'}, MaxDepth=2,
                                                  OpsAt=[{'OrthoLeft', 'OrthoRight', 'Ortho'}, {'SvdOpt', 'Svd'}],
                                                  KindPairs={('mixed1', 'mixed1')} if q else {('complex', 'complex'), ('mixedL', 'mixedL')})))
+    out.append(dict(name='big', nshards=4, constants=dict(base, MaxD=5, DimsR={4}, DimsC={1}, RanksS={4}, Scenarios={'single'},
+                                                          Ops={'Svd', 'Pinv'}, KindPairs={('real', 'real'), ('complex', 'complex')})))
     return out
 
 
